@@ -10,7 +10,8 @@ C19 — Evaluation is pure and repeatable; predefined models share no state.
 
 Model: `Model/Heap.lean` — store `ObjId → Option Obj`, reachability, operations given by their
 effect (writes + allocations) and a declared write footprint (`footprint`): nothing for every
-evaluation op, the mutable objects reachable from `m` for `fit m`.
+evaluation op; for `fit m descs args` the mutable objects reachable from `m` and from the
+caller's fit descriptions `descs` (the code fills them in place: `_check_and_fill_fit_desc`).
 
 Clause → theorem
   evaluation leaves models and caller arrays unchanged      eval_frame, eval_frame_reach
